@@ -111,7 +111,10 @@ let toks s = List.filter (fun x -> x <> "") (String.split_on_char ' ' s)
 (* ---------- findings ---------- *)
 exception Mismatch of string * string          (* kind ("spec" | "model" | "crash"), details *)
 let fail_spec fmt = Printf.ksprintf (fun s -> raise (Mismatch ("spec", s))) fmt
-let fail_model fmt = Printf.ksprintf (fun s -> raise (Mismatch ("model", s))) fmt
+(* when a case is re-run "following the specification only" (see run_case) the model comparisons are silent *)
+let model_off = ref false
+let the_rng : rng option ref = ref None
+let fail_model fmt = Printf.ksprintf (fun s -> if !model_off then () else raise (Mismatch ("model", s))) fmt
 
 (* ---------- statistics for the evidence ---------- *)
 let counters : (string, int) Hashtbl.t = Hashtbl.create 64
